@@ -94,6 +94,9 @@ INLINES = {
     'eqref': ['ref', 'ky', 'eqref'],
     'cite': ['cite'],
     'cite_opt': ['cite', 'kq', T('p. 3')],
+    'cite_brack': ['cite', 'kq', ['group', T('see [3]')]],
+    'chapter_brack': ['heading', T('Title'), 'chapter', '', ['group', T('[a,b]')]],
+    'items_punct': ['cat', T('Intro:'), ' ', ['items', 'itemize', [[T('a'), T('First.')], [T('b'), T('Second;')], [T('c'), T('Third')]]]],
     'verb': ['verb', 'x y'],
     'verb2': ['verb', '\\z{', '+'],
     'endash': ['special', '--'],
@@ -213,12 +216,17 @@ def nestings(seed, limit=None, depth=1):
     # an optional argument [..] ends at the first ']' (as in TeX): no bracketed child there
     opt_slot = {'theorem_opt', 'proof_opt', 'cite_optarg', 'fop_optarg'}
     bracketed = {'framebox', 'fop_opt', 'fop_optarg', 'cite_opt', 'chapter_opt', 'caption',
+                 'cite_brack', 'chapter_brack', 'items_punct',
                  'itemize', 'theorem_opt', 'proof_opt', 'cite_optarg'}
     combos = [c for c in combos if not (c[0] in opt_slot and c[2] in bracketed)]
     # order of a detached flow nested in another detached flow, and the multiplicity of a
     # footnote inside a twice-used argument, are left open by the properties: not generated
     det = {'footnote', 'caption'}
     combos = [c for c in combos if not (c[2] in det and c[0] in det | {'twice'})]
+    # children most likely to interact with the enclosing construct come first
+    prio = {'lbrace', 'pct', 'math', 'math_p', 'footnote', 'label', 'cite_opt', 'accent',
+            'twice', 'foo1', 'linebreak', 'emdash'}
+    combos.sort(key=lambda c: 0 if c[2] in prio else 1)
     for wn, kind, inner in combos:
         if kind == 'in':
             child = ['cat', T('Pre'), ' ', INLINES[inner], ' ', T('post')]
@@ -246,7 +254,7 @@ def repeats():
 def family(tier, seed):
     fam = singles() + repeats()
     if tier == 'quick':
-        fam += pairs(seed, 150) + nestings(seed, 120)
+        fam += pairs(seed, 150) + nestings(seed, 420)
     else:
         fam += pairs(seed, 2500) + nestings(seed, None)
     return fam
